@@ -72,6 +72,8 @@ func (n *Node) chainCtx(proposer *Key) *common.ChainCtx {
 	}
 	if n.Net != nil {
 		c.EngCtx.Net = n.Net
+	} else {
+		c.EngCtx.Net = &SimNet{Self: proposer.Address} // a network without peers: every request fails
 	}
 	c.XLog = n.Log
 	c.Timer = timer.NewXTimer()
